@@ -283,6 +283,8 @@ class Worker:
         except ConnectionRefusedError:
             self.state, self.at = 'idle', self.sim.now + 5.0
             return
+        if outcome is True:
+            w.store_as_worker(m)
         w.on_reply_sent(self, m, outcome, values)
         ep.send(msg)
         ep.close()
@@ -917,6 +919,39 @@ class PipeWorld:
         self.op(f'w{worker.idx} replies {m.jobid}[{m.target or ALL}] run={m.runid} '
                 f'{ {True: "success", False: "failure", None: "invalid"}[outcome]} new={news}')
 
+    def store_as_worker(self, m):
+        """what the real worker's ds.update() leaves in the pipeline's tables before it replies: one primary row per
+        value under the run id of the task (through the database port in reality, written straight here).  Without
+        it dawgie.db.next() would hand out the same run id for ever and nothing that depends on run ids differing
+        between events would ever be exercised."""
+        from dawgie.db.shelve import util
+        from dawgie.db.shelve.enums import Table
+        from dawgie.db.shelve.state import DBI
+
+        dbi = DBI()
+        a = self.spec.by.get(m.jobid)
+        if a is None or not dbi.is_open or not self.cfg.get('store_on_reply', True):
+            self.probes['store_skipped'] += 1
+            return
+        alg = self.eng.make_alg(a)
+
+        def app(tab, name, parent=None, ver=None):
+            return util.append(name, dbi.tables[tab.value], dbi.indices[tab.value], parent, util.LocalVersion(ver) if ver else None)[1]
+
+        try:
+            trg = app(Table.target, m.target or ALL)
+            tid = app(Table.task, a.pkg)
+            aid = app(Table.alg, alg.name(), tid, alg._get_ver())
+            for sv in alg.state_vectors():
+                sid = app(Table.state, sv.name(), aid, sv._get_ver())
+                for k in sv.keys():
+                    vid = app(Table.value, k, sid, sv[k]._get_ver())
+                    dbi.tables[Table.prime.value][str((m.runid, trg, tid, aid, sid, vid))] = 'sim-blob'
+            self.probes['stored_by_worker'] += 1
+        except Exception as e:  # noqa  (database being closed under the writer)
+            self.probes['store_failed'] += 1
+            self.op(f'worker could not store: {e!r}')
+
     def decide_outcome(self, m):
         ch, cfg = self.ch, self.cfg
         oc = cfg['outcome']
@@ -930,7 +965,11 @@ class PipeWorld:
             values = []
             for v in a.values():
                 new = mode == 0 or (mode == 1 and ch.flip('w.new', 1, 2))
+                if getattr(self, 'tail_no_news', False):
+                    new = False  # the event set of the liveness phase is closed (see tail())
                 values.append((f'{m.runid}.{t}.{v}', new))
+            if hasattr(self, 'tail_news') and any(n for _v, n in values):
+                self.tail_news += 1
         return outcome, values
 
     def on_reply(self, msg):
@@ -1269,8 +1308,23 @@ class PipeWorld:
         worst = max(self.delays)
         horizon = self.sim.now + ticks * (5.0 + worst)
         waiters = self.start_waiters() if cfg.get('waiters', True) and self.ch.flip('tail.waiters', 1, 2) else {}
+        # "any finite set of events": every report of a new value is an event (it schedules the consumers, and
+        # through a feedback reference the producer's own ancestors - a loop that may go round for as long as
+        # values keep coming back new).  The first window still lets replies report new values; if the pipeline is
+        # not quiet at its end the event set is closed (replies report nothing new from then on) and the bound is
+        # taken again from what is outstanding at that moment.  Only the second window gives the verdict.
+        self.tail_news = 0
+        self.tail_no_news = False
         r = self.sim.run(until=lambda: G.idle() and not G.handed, max_steps=self.sim.steps + cfg['max_steps'] * 3,
                          max_time=horizon)
+        if r != 'until' and self.tail_news:
+            self.probes['tail_event_set_closed'] += 1
+            self.tail_no_news = True
+            outstanding = sum(len(v) for v in G.must.values()) + sum(G.inflight.values())
+            ticks = (outstanding + depth + 2) * 2 + 4
+            horizon = self.sim.now + ticks * (5.0 + worst)
+            r = self.sim.run(until=lambda: G.idle() and not G.handed, max_steps=self.sim.steps + cfg['max_steps'] * 3,
+                             max_time=horizon)
         self.tail_result = r
         if waiters and r == 'until' and not (self.dead_units or [u for u in G.handed]):
             self.check_waiters(waiters)
@@ -1281,6 +1335,9 @@ class PipeWorld:
             # a unit handed to a worker that died or disconnected is never answered: the property
             # speaks of workers that always answer
             self.probes['tail_skipped_dead_worker'] += 1
+            return
+        if not self.workers:
+            self.probes['tail_skipped_no_worker'] += 1  # nobody to answer anything: quiescence is not promised
             return
         if r == 'until':
             self.probes['quiesced'] += 1
